@@ -33,6 +33,10 @@ enum Scenario {
     /// until one is interrupted by the timeout, then (peer still stalled) one of `then` pad bytes, then the peer
     /// resumes and two more small notifies are sent
     BlockingClientTimeoutSeq { fill: usize, then: usize },
+    /// blocking Server over TCP with a 300 ms write timeout and a 24 MiB response: the peer reads 2 MiB, pauses
+    /// `pause_ms`, reads 2 MiB, ... so that the timeout fires in one of the pauses and the peer resumes reading
+    /// soon afterwards (whatever the server writes after the interrupted response is then seen)
+    BlockingServerWriteTimeoutPaced { pause_ms: u64 },
     /// AsyncServer with a write timeout: response stalls after `k` bytes past the deadline
     AsyncServerWriteTimeout { k: usize, pipelined: bool },
     /// AsyncServer, pipelined requests, response stream stalled after `k` bytes then released;
@@ -130,6 +134,9 @@ fn scenarios(tier: Tier) -> Vec<Scenario> {
     }
     for (fill, then) in [(7000usize, 0usize), (7000, 70_000), (20_000, 0), (100, 70_000), (8100, 8200)] {
         v.push(Scenario::BlockingClientTimeoutSeq { fill, then });
+    }
+    for pause_ms in [540u64, 400] {
+        v.push(Scenario::BlockingServerWriteTimeoutPaced { pause_ms });
     }
     v
 }
@@ -581,6 +588,79 @@ fn blocking_server_write_timeout() -> (Bad, u64) {
     (bad, flags | 512)
 }
 
+
+/// Real sockets and real time: a finding must reproduce in a second execution of the same scenario.
+fn blocking_server_write_timeout_paced(pause_ms: u64) -> (Bad, u64) {
+    let (bad, flags) = blocking_server_write_timeout_paced_once(pause_ms);
+    if bad.is_empty() {
+        return (bad, flags);
+    }
+    let (again, _) = blocking_server_write_timeout_paced_once(pause_ms);
+    (bad.into_iter().filter(|(k, _)| again.iter().any(|(k2, _)| k2 == k)).collect(), flags)
+}
+
+fn blocking_server_write_timeout_paced_once(pause_ms: u64) -> (Bad, u64) {
+    let mut bad = Bad::new();
+    let ctx = format!("blocking Server write_timeout=300ms, 24 MiB response, peer reads 2 MiB then pauses {pause_ms} ms, repeatedly");
+    let addr = blocking_server(Some(Duration::from_millis(300)));
+    let mut s = match std::net::TcpStream::connect(addr) {
+        Ok(s) => s,
+        Err(e) => return (vec![("C05:harness".into(), format!("{ctx}: connect: {e}"))], 0),
+    };
+    let _ = s.write_all(&Frame::request(1, "/huge", b"1", FMT_JSON, false).to_bytes());
+    let _ = s.write_all(&Frame::request(2, "/small", b"2", FMT_JSON, false).to_bytes());
+    s.set_read_timeout(Some(Duration::from_secs(5))).ok();
+    let mut wire: Vec<u8> = Vec::new();
+    let mut chunk = vec![0u8; 1 << 16];
+    let begun = std::time::Instant::now();
+    'outer: while begun.elapsed() < Duration::from_secs(40) {
+        // one burst of (up to) 2 MiB
+        let mut burst = 0usize;
+        while burst < (2 << 20) {
+            match s.read(&mut chunk) {
+                Ok(0) => break 'outer,
+                Ok(n) => {
+                    wire.extend_from_slice(&chunk[..n]);
+                    burst += n;
+                }
+                Err(_) => break 'outer,
+            }
+        }
+        std::thread::sleep(Duration::from_millis(pause_ms));
+    }
+    let mut flags = 131072;
+    // what the two responses look like when whole
+    let want1 = serde_json::to_vec(&json!({"tag": 1, "pad": "z".repeat(24 << 20)})).unwrap();
+    let want2 = serde_json::to_vec(&json!({"tag": 2})).unwrap();
+    if wire.len() < 48 {
+        return (vec![("C05:harness".into(), format!("{ctx}: only {} bytes received", wire.len()))], flags);
+    }
+    let h = frames::Hdr::decode_raw(&wire).unwrap();
+    let (q, b) = (h.query_length as usize, h.body_length as usize);
+    if h.consistent_total().is_none() || b != want1.len() {
+        bad.push(("C05:Server:bytes-after-timed-out-write".into(), format!("{ctx}: the first response's header is not the expected one ({h:?})")));
+        return (bad, flags);
+    }
+    let start = (48 + q).min(wire.len());
+    let have = (wire.len() - start).min(b);
+    if wire[start..start + have] != want1[..have] {
+        let at = (0..have).find(|i| wire[start + i] != want1[*i]).unwrap_or(0);
+        bad.push(("C05:Server:bytes-after-timed-out-write".into(), format!("{ctx}: {} bytes of the 24 MiB response body arrived; from body offset {at} on they are not the response's own bytes: something was written after the interrupted response ({} bytes received in all)", have, wire.len())));
+        return (bad, flags);
+    }
+    if wire.len() < 48 + q + b {
+        flags |= 262144; // really interrupted, and the peer kept reading afterwards
+        return (bad, flags);
+    }
+    // the large response arrived whole (the kernel absorbed it): the rest must be the second response, whole
+    let rest = &wire[48 + q + b..];
+    match frames::split_stream(rest) {
+        Ok((fr, 0)) if fr.len() == 1 && fr[0].body == want2 => {}
+        other => bad.push(("C05:Server:torn-or-interleaved".into(), format!("{ctx}: after the whole first response: {:?}", other.map(|(f, r)| (f.len(), r))))),
+    }
+    (bad, flags)
+}
+
 fn blocking_server_large() -> (Bad, u64) {
     let mut bad = Bad::new();
     let addr = blocking_server(None);
@@ -779,6 +859,7 @@ fn run_one(rt: &tokio::runtime::Runtime, sc: &Scenario) -> (Bad, u64) {
         Scenario::BlockingServerLarge => blocking_server_large(),
         Scenario::BlockingClientWriteTimeout => blocking_client_write_timeout(),
         Scenario::BlockingClientTimeoutSeq { fill, then } => blocking_client_timeout_seq(*fill, *then),
+        Scenario::BlockingServerWriteTimeoutPaced { pause_ms } => blocking_server_write_timeout_paced(*pause_ms),
     }
 }
 
@@ -798,7 +879,7 @@ pub fn run(tier: Tier) -> ! {
         |(rt, bad, flagc, n), i| {
             let (b, flags) = run_one(rt, &all[i as usize]);
             *n += 1;
-            for bit in 0..17 {
+            for bit in 0..19 {
                 if flags & (1 << bit) != 0 {
                     *flagc.entry(bit).or_insert(0) += 1;
                 }
@@ -823,19 +904,19 @@ pub fn run(tier: Tier) -> ! {
         ctx.violation(k, w, json!({"scenario": format!("{:?}", all[i]), "index": i, "tier": tier.name()}));
     }
     let g = |b: u64| flagc.get(&b).copied().unwrap_or(0);
-    if !ctx.has_violation() && [0u64, 1, 2, 3, 4, 5, 6, 7, 9, 10, 11, 12, 13, 14, 15, 16].iter().any(|b| g(*b) == 0) {
+    if !ctx.has_violation() && [0u64, 1, 2, 3, 4, 5, 6, 7, 9, 10, 11, 12, 13, 14, 15, 16, 17].iter().any(|b| g(*b) == 0) {
         ctx.machinery(format!("vacuous exploration: a scenario family never ran or never stalled: {flagc:?}"));
     }
     let coverage = json!({
         "evaluations": executed,
         "distinct_nontrivial": all.len(),
-        "rule": "forced-stall scripts: (a) 2-4 concurrent calls + a notify on AsyncClient / WebSocketClient with payload sizes straddling the 8 KiB writer buffer, the peer accepting exactly k bytes (k over header/query/buffer boundary classes) before resuming; (b) a large call abandoned after exactly k accepted bytes, followed by another call and then by a notify / a forwarded notify / a batch; (a') 8 and 32 concurrent writers (calls and notifies, pads cycling over the buffer-boundary classes) against a peer that stalls at offset k and then reads a few bytes at a time, or accepts at most 7 / 4096 bytes per write; (c) AsyncServer with a 1 s write timeout whose response stalls after k bytes past the deadline, and pipelined responses stalled then released; (d) WebSocket server with concurrent off-reader responses and handler-pushed notifies against a stalled peer; (b') blocking Client over loopback TCP with a 200 ms write timeout against a peer that is not reading: notifies of 100 / 7000 / 8100 / 20000 pad bytes until one is interrupted, then one of 0 / 8200 / 70000 pad bytes, the peer resumes, two more notifies: whole frames only and none of the later notifies on the wire; (e) blocking Server over loopback TCP with 24 MiB responses (peer stops reading past a 300 ms write timeout; three connections pipelining). Everything the peer receives must parse into whole frames, and nothing may follow an interrupted write.",
+        "rule": "forced-stall scripts: (a) 2-4 concurrent calls + a notify on AsyncClient / WebSocketClient with payload sizes straddling the 8 KiB writer buffer, the peer accepting exactly k bytes (k over header/query/buffer boundary classes) before resuming; (b) a large call abandoned after exactly k accepted bytes, followed by another call and then by a notify / a forwarded notify / a batch; (a') 8 and 32 concurrent writers (calls and notifies, pads cycling over the buffer-boundary classes) against a peer that stalls at offset k and then reads a few bytes at a time, or accepts at most 7 / 4096 bytes per write; (c) AsyncServer with a 1 s write timeout whose response stalls after k bytes past the deadline, and pipelined responses stalled then released; (d) WebSocket server with concurrent off-reader responses and handler-pushed notifies against a stalled peer; (b') blocking Client over loopback TCP with a 200 ms write timeout against a peer that is not reading: notifies of 100 / 7000 / 8100 / 20000 pad bytes until one is interrupted, then one of 0 / 8200 / 70000 pad bytes, the peer resumes, two more notifies: whole frames only and none of the later notifies on the wire; (e') the same 24 MiB response read by a peer that pauses 540 / 400 ms between 2 MiB bursts, so that the timeout fires in a pause and whatever the server writes after the interrupted response is seen: the received body bytes must be the response's own; (e) blocking Server over loopback TCP with 24 MiB responses (peer stops reading past a 300 ms write timeout; three connections pipelining). Everything the peer receives must parse into whole frames, and nothing may follow an interrupted write.",
         "samples": samples.take(),
         "exhaustive": executed == all.len() as u64,
         "nonvacuity": {
             "client_writers_really_stalled": g(0), "client_writer_scenarios": g(1), "abandon_really_mid_write": g(2), "abandon_scenarios": g(3),
             "async_server_timeout_really_stalled": g(4), "async_server_timeout_scenarios": g(5), "async_server_stall_scenarios": g(6),
-            "ws_server_mixed_scenarios": g(7), "blocking_server_response_really_torn_by_timeout": g(8), "blocking_server_timeout_scenarios": g(9), "blocking_server_large_scenarios": g(10), "blocking_client_large_write_really_interrupted": g(11), "blocking_client_timeout_scenarios": g(12), "abandon_then_other_sender_scenarios": g(13), "many_writer_scenarios(8,32)": g(14), "blocking_client_timeout_sequences": g(15), "blocking_client_small_frame_really_interrupted": g(16),
+            "ws_server_mixed_scenarios": g(7), "blocking_server_response_really_torn_by_timeout": g(8), "blocking_server_timeout_scenarios": g(9), "blocking_server_large_scenarios": g(10), "blocking_client_large_write_really_interrupted": g(11), "blocking_client_timeout_scenarios": g(12), "abandon_then_other_sender_scenarios": g(13), "many_writer_scenarios(8,32)": g(14), "blocking_client_timeout_sequences": g(15), "blocking_client_small_frame_really_interrupted": g(16), "blocking_server_paced_reader_scenarios": g(17), "blocking_server_response_interrupted_with_the_peer_reading_on": g(18),
         },
     });
     ctx.finish(
